@@ -776,6 +776,29 @@ def rule_R9(ctx):
             ctx.check(True, "R9", inst, "headers left over on the observed side are charged", "", ctx.loc(b, db_))
         else:
             ctx.cannot("R9", inst, "error increment inside a loop whose index tests are not recognised", ctx.loc(b, db_))
+    # an observed header is consumed in the joint walk only by a signature entry of the same name (a skipped optional entry or a
+    # missing required one leaves the observed header for the next signature entry)
+    ov = [i for i, nm in idx_names.items() if nm == "obs_idx"]
+    sv = [i for i, nm in idx_names.items() if nm == "sig_idx"]
+    if len(ov) == 1 and len(sv) == 1:
+        nadv, loose = 0, []
+        for (db_, dj_, full) in S.defs().get(ov[0], []):
+            mine = [h for h, blks in loops.items() if db_ in blks]
+            if not mine:
+                continue
+            blks = loops[min(mine, key=lambda x: len(loops[x]))]
+            if not any(d2 in blks for (d2, _j, _f) in S.defs().get(sv[0], [])):
+                continue    # the remainder loop over the observed side
+            nadv += 1
+            conds = Q.canon_conds(P, T.dom_conds(b, S, db_))
+            same = any(c[0] == "cmp" and c[1] == "Eq" and c[4] is True and all(any(x[0] == "field" and x[2] == "name" for x in T.walk(side)) for side in (c[2], c[3]))
+                       for c in conds)
+            if not same:
+                loose.append(db_)
+        if nadv:
+            ctx.check(not loose, "R9", "distance_header:walk:observed-consumed-by-same-name", "%d advances of the observed index in the joint walk, each under `names equal`" % nadv,
+                      "the joint walk advances the observed index although the two header names differ: the observed header is swallowed by an entry "
+                      "it does not correspond to and the headers behind it no longer line up, so conforming traffic collects errors", ctx.loc(b, loose[0]) if loose else None)
     ctx.check(counts["walk"] >= 2 and counts["observed-rest"] >= 1 and counts["signature-rest"] >= 1, "R9", "distance_header:charge-sites",
               "error increments: %s" % counts, "expected error increments in the joint walk (2), the observed remainder (1) and the signature remainder (1); found %s" % counts, ctx.loc(b))
 
